@@ -2762,8 +2762,8 @@ class ReportDTCExtDataRecordByDTCNumberResponse(
         self.dtc_ext_data_records = dtc_ext_data_records
 
     def dtc_and_status_record_bytes(self) -> bytes:
-        return to_bytes(self.dtc_and_status_record[0], 1) + to_bytes(
-            self.dtc_and_status_record[1], 3
+        return to_bytes(self.dtc_and_status_record[0], 3) + to_bytes(
+            self.dtc_and_status_record[1], 1
         )
 
     @property
